@@ -48,3 +48,81 @@ def diag_codes(M, P, res, code_of):
         g = c.conc() if isinstance(c, Str) else '?'
         got.add(code_of(P, re.sub(r'^code:', '', g)))
     return got
+
+
+def analyze_files(ctx, files, deterministic=False, max_paths=None):
+    """parse_program on every file + stages::analyze on the MIR (toposort tie-breaks nondeterministic unless asked otherwise).
+    Returns (list of outcomes, Part); an outcome is 'rejected' | ('ok', ()) | ('diagnosed', ((code, label text, file index), ...)), one per path."""
+    from framework import Part
+    from . import C02 as K02
+    part = Part(); P = ctx.program()
+    k_parse = P.find_fn('ironplc-parser', 'parse_program'); k_an = P.find_fn('ironplc-analyzer', 'stages::analyze')
+    k_opt = parse_opts(P)
+    holder = {}
+    M = Machine(P, stubs=K10.dyn_lexer_stubs(ctx, holder), max_steps=800_000_000)
+    if deterministic: M.toposort_deterministic = True
+    outs = []
+    def entry(M):
+        libs = []
+        for i, text in enumerate(files):
+            fid = Ref(Cell(Agg('FileId', [Str('f%d.st' % i)])))
+            opts = Ref(Cell(M.call_fn(k_opt[0], []) if k_opt else Agg('ParseOptions', [False])))
+            r = M.call_fn(k_parse, [Ref(Cell(Str(text))), fid, opts])
+            if r.disc != 0: return 'rejected'
+            libs.append(Ref(Cell(r.f[0])))
+        a = M.call_fn(k_an, [Ref(Cell(VecV(libs)))])
+        if a.disc == 0: return ('ok', ())
+        out = []
+        for d in a.f[0].items:
+            d = M.deref(d) if isinstance(d, Ref) else d
+            c = M.deref(d.f[0]); code = K02._code_of(P, re.sub(r'^code:', '', c.conc() if isinstance(c, Str) else '?'))
+            lb = find_label(M, d); lab = None; fidx = None
+            if lb is not None:
+                loc = M.deref(lb.f[0]) if isinstance(lb.f[0], Ref) else lb.f[0]
+                a0, a1 = simp(loc.f[0]), simp(loc.f[1]); fname = None
+                stack = [lb.f[1]]
+                while stack:
+                    x = stack.pop()
+                    if isinstance(x, Ref): x = M.deref(x)
+                    if isinstance(x, Str): fname = x.conc(); break
+                    if isinstance(x, (Agg, EnumV)): stack.extend(x.f)
+                fidx = int(fname[1:-3]) if fname and re.fullmatch(r'f\d+\.st', fname) else None
+                src = files[fidx] if fidx is not None and fidx < len(files) else None
+                if src is None or not isinstance(a0, int) or not isinstance(a1, int): lab = '?'
+                elif not (0 <= a0 <= a1 <= len(src.encode())): lab = '<outside the file: %s..%s>' % (a0, a1)
+                else: lab = src.encode()[a0:a1].decode('utf-8', 'replace')
+            out.append((code, lab, fidx))
+        return ('diagnosed', tuple(sorted(out, key=str)))
+    def on_path(M, pr):
+        part.paths += 1
+        if pr.inconclusive: part.inconc(pr.inconclusive); return
+        if pr.panic: part.inconc('panic (C04): %s' % pr.panic.msg[:60]); return
+        part.nontrivial += 1
+        outs.append(pr.result)
+    M.explore(entry, on_path, **({'max_paths': max_paths} if max_paths else {}))
+    part.queries += M.stats['smt']; part.encoded = set(M.encoded); part.models = set(M.models_used)
+    return outs, part
+
+def find_label(M, d):
+    """the primary label of a Diagnostic: the first Label aggregate in field order"""
+    stack = [d]
+    while stack:
+        v = stack.pop()
+        if isinstance(v, Agg) and re.sub(r'<.*', '', v.name).split('::')[-1] == 'Label': return v
+        if isinstance(v, (Agg, EnumV)): stack.extend(reversed(v.f))
+        elif isinstance(v, VecV): stack.extend(reversed(v.items))
+        elif isinstance(v, Ref): stack.append(M.get(v.cell, v.path))
+    return None
+
+def real_analyze(ctx, files):
+    """the same through the real build: list of (code, label text, file index)"""
+    r = ctx.replay({'cmd': 'analyze', 'sources': files})
+    if 'panic' in r: return 'panic'
+    if 'parse_error' in r: return 'rejected'
+    out = []
+    for d in r.get('diagnostics', []):
+        fi = int(d['file'][1:-3]) if re.fullmatch(r'f\d+\.st', d['file']) else None
+        src = files[fi] if fi is not None and fi < len(files) else ''
+        ok_ = 0 <= d['start'] <= d['end'] <= len(src.encode())
+        out.append((d['code'], src.encode()[d['start']:d['end']].decode('utf-8', 'replace') if ok_ else '<outside the file: %s..%s>' % (d['start'], d['end']), fi))
+    return tuple(sorted(out, key=str))
